@@ -155,13 +155,18 @@ int main(int argc, char **argv) {
     volatile size_t *done = mmap(NULL, sizeof(size_t), PROT_READ | PROT_WRITE, MAP_SHARED | MAP_ANONYMOUS, -1, 0);
     if (done == MAP_FAILED) { perror("mmap"); return 2; }
     *done = 0;
+    int crashes = 0;
     while (*done < ncases) {
+        if (crashes >= 12) {        /* a broken tree: do not spend the time budget on hangs */
+            for (size_t i = *done; i < ncases; i++) printf("<skipped after %d crashes>\n", crashes);
+            break;
+        }
         fflush(stdout);
         pid_t pid = fork();
         if (pid == 0) {
             for (size_t i = *done; i < ncases; i++) {
                 char *buf = NULL; size_t len = 0;
-                alarm(20);
+                alarm(3);
                 out = open_memstream(&buf, &len);
                 run_case(cases[i]);
                 fclose(out);
@@ -176,7 +181,7 @@ int main(int argc, char **argv) {
         if (*done < ncases) {
             if (WIFSIGNALED(st)) printf("<crash signal %d>\n", WTERMSIG(st));
             else printf("<crash exit %d>\n", WIFEXITED(st) ? WEXITSTATUS(st) : -1);
-            *done = *done + 1;
+            *done = *done + 1; crashes++;
         }
     }
     return 0;
